@@ -3,6 +3,7 @@ package generator
 import (
 	"net/http"
 	"path/filepath"
+	"strconv"
 	"strings"
 
 	"github.com/vkd/goag/specification"
@@ -135,6 +136,20 @@ func NewRouter(s *specification.Spec, ps []*PathItem, os []*Operation, opt Gener
 		root.Add(pi)
 	}
 	r.Routes = append(r.Routes, root.GetRoutes()...)
+	// Two nodes of the tree can derive the same name (/a/{b}/c and /a/b/d, /a_b/c and /a/b/c,
+	// /2024/x and the root): every node needs a route function of its own.
+	used := make(map[string]struct{}, len(r.Routes))
+	for _, route := range r.Routes {
+		name := route.Name
+		for i := 2; ; i++ {
+			if _, ok := used[name]; !ok {
+				break
+			}
+			name = route.Name + "_" + strconv.Itoa(i)
+		}
+		route.Name = name
+		used[name] = struct{}{}
+	}
 	verifEmit("router", &r)
 
 	return r
